@@ -81,6 +81,20 @@ def middles(c, v, mech):
         ('version-down', [close(0)], {'maxv': max(1, v - 1)}),
         ('server-version-down', [close(0), cfg(c, maxv=max(1, v - 1))], {}),
         ('foreign-server', [close(0)], {'srv': 1}),
+        # the stale / mismatching offer comes WITHOUT a client certificate: nothing of the declined
+        # session (identity, resumed flag) may show up on the connection
+        ('keep-expired-nocert', [close(0), tick(life_q + 40), {'e': 'keep', 'ci': 0}], {'ccert': 0}),
+        ('keep-8days-nocert', [close(0), tick(4 * 86400 * 8), {'e': 'keep', 'ci': 0}], {'ccert': 0}),
+        ('lifetime-shortened-nocert', [close(0), tick(40), cfg(c, life=8)], {'ccert': 0}),
+        ('other-hash-sha256-nocert', [close(0)], {'menu': 5, 'ccert': 0}),
+        ('other-hash-sha384-nocert', [close(0)], {'menu': 8, 'ccert': 0}),
+        ('other-hash-sha384', [close(0)], {'menu': 8}),
+        ('rotate-drop-old-nocert', [close(0), cfg(c, keys=[7])], {'ccert': 0}),
+        ('tamper-body-nocert', [close(0), {'e': 'tamper', 'ci': 0, 'which': which, 'bit': 300}], {'ccert': 0}),
+        ('fatal-revive-nocert', [close(0, 1), {'e': 'revive', 'ci': 0}], {'ccert': 0}),
+        ('other-cert-expired', [close(0), tick(life_q + 40), {'e': 'keep', 'ci': 0}], {'ccert': 2}),
+        ('bad-binder', [close(0), {'e': 'devrms', 'ci': 0}], {}),
+        ('bad-binder-nocert', [close(0), {'e': 'devrms', 'ci': 0}], {'ccert': 0}),
         ('twice', [close(0), conn(v, offer=0), close(1)], {}),
         ('twice-fatal-second', [close(0), conn(v, offer=0), close(1, 1)], {}),
         ('twice-abrupt-server-second', [close(0), conn(v, offer=0), close(1, 2)], {}),
@@ -89,7 +103,7 @@ def middles(c, v, mech):
     return m
 
 
-QUICK_OLD = ('plain', 'ticket-expiry', 'ticket-expiry+1', 'cache-age+1', 'rotate-keep-old', 'rotate-drop-old', 'fatal',
+QUICK_OLD = ('plain', 'keep-expired-nocert', 'ticket-expiry', 'ticket-expiry+1', 'cache-age+1', 'rotate-keep-old', 'rotate-drop-old', 'fatal',
              'abrupt-server', 'tamper-body', 'client-drops-ems', 'sni-changed', 'foreign-server')
 
 
